@@ -88,6 +88,9 @@ type replica struct {
 	// C06 bookkeeping
 	lastSeq  []string          // sequence presented to consumers after the last event on this replica
 	orderIds map[string]string // order id first seen for each stored change
+	// C02 bookkeeping
+	aclIdx   int             // index of the last scripted ACL record this replica holds
+	authSeen map[string]bool // stored changes already judged admissible on this replica
 }
 
 type world struct {
@@ -111,6 +114,9 @@ type world struct {
 	encrypted bool
 	opts      treeOpts
 	cloneSeq  int
+	script    *aclScript
+	byzSeq    int
+	byzIds    map[string]bool
 	huLog     []*message // one copy of every broadcast head update (for passive receivers)
 }
 
@@ -407,7 +413,15 @@ func (w *world) deliver(m *message) {
 		}
 		hu.SetPeerId(peerName(m.src))
 		before := dst.headsKey()
+		var snap applySnap
+		if w.opts.auth {
+			snap = w.snapState(dst)
+		}
 		req, err := dst.tree.HandleHeadUpdate(ctx, syncstatus.NewNoOpSyncStatus(), hu)
+		if w.opts.auth {
+			w.rollbackCheck(dst, snap, err, fmt.Sprintf("head update #%d %s", m.seq, m.note))
+			w.authCheck(dst, "after head update")
+		}
 		w.r.Event("deliver-hu", "#%d %s->%s %s heads %s->%s req=%v err=%v", m.seq, peerName(m.src), dst.name, m.note, before, dst.headsKey(), req != nil, errStr(err))
 		if err != nil && !m.corrupt {
 			w.noteHonestReject(dst, "head update", err)
@@ -462,7 +476,15 @@ func (w *world) deliverBatch(s *stream) {
 		return
 	}
 	before := dst.headsKey()
+	var snap applySnap
+	if w.opts.auth {
+		snap = w.snapState(dst)
+	}
 	err := dst.tree.HandleResponse(peer.CtxWithPeerId(ctxb, peerName(s.src)), peerName(s.src), msg.ObjectId, resp)
+	if w.opts.auth {
+		w.rollbackCheck(dst, snap, err, fmt.Sprintf("response batch of stream#%d", s.seq))
+		w.authCheck(dst, "after response batch")
+	}
 	w.r.Event("deliver-batch", "stream#%d %s->%s batch %d/%d changes=%d heads %s->%s err=%v", s.seq, peerName(s.src), dst.name, s.next, len(s.batches), len(resp.Changes), before, dst.headsKey(), errStr(err))
 }
 
@@ -499,7 +521,7 @@ func (w *world) drain(limit int) {
 			w.checkReplica(w.reps[m.dst], "drain")
 		}
 	}
-	w.r.Fail("no-quiescence", "", "network did not drain within %d deliveries after faults stopped", limit)
+	w.r.Fail("no-quiescence", "", "network did not drain within %d deliveries after faults stopped%s", limit, w.divergenceReport())
 }
 
 // ---- replica state views -------------------------------------------------------------------------
@@ -829,4 +851,51 @@ func diff(a, b []string) []string {
 		}
 	}
 	return out
+}
+
+// divergenceReport explains which changes the replicas disagree on (diagnostics for liveness failures).
+func (w *world) divergenceReport() string {
+	var sb strings.Builder
+	union := map[string]bool{}
+	sets := map[int]map[string]bool{}
+	for _, rep := range w.active() {
+		if !rep.up || rep.tree == nil {
+			continue
+		}
+		rep.st = nil
+		sets[rep.idx] = map[string]bool{}
+		for _, id := range rep.storedIds() {
+			sets[rep.idx][id] = true
+			union[id] = true
+		}
+	}
+	var ids []string
+	for id := range union {
+		ids = append(ids, id)
+	}
+	sort.Strings(ids)
+	for _, id := range ids {
+		var missing []string
+		for _, rep := range w.active() {
+			if s, ok := sets[rep.idx]; ok && !s[id] {
+				missing = append(missing, rep.name)
+			}
+		}
+		if len(missing) > 0 {
+			fmt.Fprintf(&sb, "\n change %s is missing on %s", short(id), strings.Join(missing, ","))
+			if raw, ok := w.created[id]; ok {
+				if d, err := decodeChange(&treechangeproto.RawTreeChangeWithId{RawChange: raw, Id: id}); err == nil && w.script != nil {
+					name := "?"
+					if a := w.script.accountOf(d.tc.Identity); a != nil {
+						name = a.Name
+					}
+					fmt.Fprintf(&sb, " (author %s cites #%s parents %s snapshot %s isSnapshot=%v)", name, w.recName(d.tc.AclHeadId), shorts(d.tc.TreeHeadIds), short(d.tc.SnapshotBaseId), d.tc.IsSnapshot)
+				}
+			}
+		}
+	}
+	for _, rep := range w.active() {
+		fmt.Fprintf(&sb, "\n %s heads %s", rep.name, rep.headsKey())
+	}
+	return sb.String()
 }
